@@ -12,16 +12,21 @@ from .. import build, canon, gen, impl, model, planted, report, sexp
 SHELLS = planted.SHELLS
 
 MANIFEST = dict(
-    text=('Props/C06.v: totality theorems for the Gallina model of the validation stage (from_grammar never returns Panic; the cycle '
-          'search and the sub-word check never run out of the fuel the model gives them -- the termination argument that guards '
-          'the recursive expansion passes); the model is tied to src/check.rs by the C08/C11/C15 correspondence runs. What no '
-          'model here can exhibit -- stack exhaustion on ~10^5 nested brackets, exponential expansion of doubly-referenced '
-          'definitions, the internals of annotate-snippets -- is observed on the real binary only (PARTIAL): debug and release '
-          'builds run under CPU and memory limits on structure-aware mutations of valid grammars, planted mistakes of every '
-          'class, multi-line spans, escapes, non-ASCII, invalid UTF-8 and token soups, x 4 shells x {file, stdout}: exit 0 with '
-          'a complete script, or exit 1 with a diagnostic, nothing on stdout and the destination untouched.'),
-    design='6 C06',
-    technique='Coq totality theorems on the checker model (partial) + exhaustive-outcome judgement of the real binary on mutated inputs')
+    text=('Props/C06b.v: C06_pipeline_total -- the whole compilation pipeline as one Gallina function (Model/Driver.v compile: text -> '
+          'parse -> check -> regex -> within-word automata -> subset construction -> minimise -> ambiguity check) returns a result or '
+          'an error value for EVERY input text, shell and work-list order: no panic site of the modelled code is reachable and no '
+          'fuel-bounded loop runs out (composition of parse_total, C06_checker_total -- whose core is that success of the cycle search '
+          'bounds the recursive expansion passes --, C02_compile_valid_total, C03_total); C06_pipeline_error_kinds lists what a '
+          'rejection can be. The pipeline model is tied to the library end to end on every run (same verdict and error variant, or '
+          'the same minimised automaton up to state numbering) and stage by stage by the other checks. What no model here can '
+          'exhibit -- stack exhaustion on ~10^5 nested brackets, exponential expansion of doubly-referenced definitions, the '
+          'internals of annotate-snippets, file I/O -- is observed on the real binary only (PARTIAL): debug and release builds under '
+          'CPU and memory limits on structure-aware mutations of valid grammars, planted mistakes of every class, every small '
+          'expression tree over one leaf of each kind, multi-line spans, escapes, non-ASCII, invalid UTF-8 and token soups, x 4 '
+          'shells x {file, stdout}: exit 0 with a complete script, or exit 1 with a diagnostic, nothing on stdout and the '
+          'destination untouched.'),
+    design='6 C06, 13',
+    technique='Coq totality theorem for the whole pipeline model (partial: runtime resources outside the model) + end-to-end model/library tie + exhaustive-outcome judgement of the real binary on mutated inputs')
 
 TRAILER = {
     'bash': b'complete -o nospace -F _',
